@@ -10,6 +10,7 @@ import z3
 from mir_engine import MQ
 from mirlib import *
 from storelib import Store, EagerSched
+from C10 import ForkSched
 from envlib import struct_eq
 
 IOUGRID = [0.125, 0.25, 0.5, 0.75]
@@ -92,7 +93,7 @@ def _trackbox(j):
     return Adt('Universal2DBox', 0, (f32(float(200 + j)), f32(0.0), NONE, f32(1.0), f32(1.0), f32(1.0), NONE))
 
 
-def mk_step(ndet, nstored, shards=1, aw_zero=False, lite=False):
+def mk_step(ndet, nstored, shards=1, aw_zero=False, lite=False, fork=False):
     def q(vm, P):
         fn = P.impl_methods[('Sort', None, 'predict_with_scene')][0][0]
         scene = vm.fresh(64, 'scene')
@@ -145,10 +146,13 @@ def mk_step(ndet, nstored, shards=1, aw_zero=False, lite=False):
         class Both:
             """scheduler over both stores: workers run when the caller blocks"""
             def __init__(s):
-                s.a, s.b = EagerSched(main), EagerSched(wasted)
+                # fork: symbolic yield points - after every queued command its worker may run at once, and a blocked caller
+                # is served by the pending workers in every order (command-granularity schedules, as in C10)
+                s.a = ForkSched(main) if fork else EagerSched(main)
+                s.b = EagerSched(wasted)
 
             def on_send(s, vm_, qc):
-                pass
+                s.a.on_send(vm_, qc)
 
             def on_block(s, vm_, qc):
                 s.a.on_block(vm_, qc)
@@ -357,3 +361,10 @@ def step_queries():
 
 
 MIR = step_queries()
+# the same call under every command-granularity schedule of the store workers (2 shards)
+MIR.append(MQ("step_sort_d1_t2_s2_sched", 'quick', mk_step(1, 2, 2, lite=True, fork=True),
+              "one Sort::predict_with_scene call, 2 shards, EVERY command-granularity schedule of the shard workers (a worker may run right after a command is queued; "
+              "blocked caller served in every order): the records and the state after the call satisfy the same shard- and schedule-independent oracle",
+              "1 detection, 2 stored tracks, 2 shards, reduced option grid", FUNCS, spec_calls=_calls, replay=replay_step, max_paths=400000, timeout=3000))
+MIR.append(MQ("step_sort_d2_t1_s2_sched", 'thorough', mk_step(2, 1, 2, lite=True, fork=True),
+              "same, 2 detections x 1 stored track", "2 detections, 1 stored track, 2 shards, reduced option grid", FUNCS, spec_calls=_calls, replay=replay_step, max_paths=400000, timeout=3300))
